@@ -88,6 +88,7 @@ type built struct {
 	goVer2  string
 	hotFile string
 	nhot    int
+	constFile string
 	rep     *InstrumentReport
 	nsites  int
 	goVer   string
@@ -189,11 +190,15 @@ func prepare(cfg *config) *built {
 			hot = append(hot, s.ID)
 		}
 	}
+	constFile := filepath.Join(scratch, "consts.json")
+	if err := writeJSON(constFile, rep.Constants); err != nil {
+		die2("%v", err)
+	}
 	hotFile := filepath.Join(scratch, "hot.json")
 	if err := writeJSON(hotFile, hot); err != nil {
 		die2("%v", err)
 	}
-	return &built{scratch: scratch, worker: bin, worker2: bin2, goVer2: ver2, rep: rep, nsites: nsites, nhot: len(hot), hotFile: hotFile, goVer: strings.TrimSpace(string(vout))}
+	return &built{scratch: scratch, worker: bin, worker2: bin2, goVer2: ver2, rep: rep, nsites: nsites, nhot: len(hot), hotFile: hotFile, constFile: constFile, goVer: strings.TrimSpace(string(vout))}
 }
 
 // WorkerReport mirrors the worker's aggregate (only what simctl needs).
@@ -260,7 +265,7 @@ func workerCmd(b *built, outDir string, w int, args ...string) *exec.Cmd {
 		bin = b.worker2
 	}
 	cmd := exec.Command(bin, args...)
-	env := append(os.Environ(), "GEOSIM_HOT="+b.hotFile)
+	env := append(os.Environ(), "GEOSIM_HOT="+b.hotFile, "GEOSIM_CONSTS="+b.constFile)
 	var e2 []string
 	for _, e := range env {
 		if strings.HasPrefix(e, "GORACE=") || strings.HasPrefix(e, "GOMAXPROCS=") {
@@ -909,6 +914,7 @@ func runCheck(cfg *config) int {
 			"atomic_ops_wrapped":               b.rep.AtomicWraps,
 			"library_locks_simulated":          b.rep.SimLocks,
 			"hot_sites_after_sync_ops":         b.nhot,
+			"integer_constants_harvested":      b.rep.Constants,
 			"constructs_outside_scheduler":     b.rep.Uncontrolled,
 			"controlled":                       agg.FreeRuns == 0,
 			"uncontrolled_fallback_runs":       agg.FreeRuns,
